@@ -63,14 +63,24 @@ where
     }
 
     fn is_bareword(s: &str) -> bool {
+        // Only print a field name without quotes when the tokenizer reads it
+        // back as one word: a bareword starts with a letter, and NULL, true
+        // and false are recognized as a prefix of any word.
         match s.chars().nth(0) {
             Some(c) => {
-                if !(c.is_ascii_alphabetic() || c == '_') {
+                if !c.is_ascii_alphabetic() {
                     return false;
                 }
             }
             None => return false,
         };
+        if s != "true" && s != "false" {
+            for reserved in ["NULL", "true", "false"] {
+                if s.starts_with(reserved) {
+                    return false;
+                }
+            }
+        }
         for c in s.chars() {
             if !(c.is_ascii_alphabetic() || c == '_') {
                 return false;
